@@ -44,7 +44,14 @@ func NativeToObject(val any) Object {
 	case reflect.Struct:
 		return nativeStructToObject(val)
 	case reflect.Slice:
-		return nativeSliceToArrayObject(convertToInterfaceSlice(val))
+		arr := nativeSliceToArrayObject(convertToInterfaceSlice(val))
+
+		// an unsupported element makes the whole value unsupported
+		if arr == nil {
+			return nil
+		}
+
+		return arr
 	case reflect.Map:
 		return nativeMapToObject(val)
 	case reflect.Pointer:
@@ -67,8 +74,20 @@ func nativeMapToObject(val any) Object {
 
 	valValue := reflect.ValueOf(val)
 
+	// only maps with string keys can be represented as objects
+	if valValue.Type().Key().Kind() != reflect.String {
+		return nil
+	}
+
 	for _, key := range valValue.MapKeys() {
-		obj.Pairs[key.String()] = NativeToObject(valValue.MapIndex(key).Interface())
+		pair := NativeToObject(valValue.MapIndex(key).Interface())
+
+		// an unsupported value makes the whole map unsupported
+		if pair == nil {
+			return nil
+		}
+
+		obj.Pairs[key.String()] = pair
 	}
 
 	return obj
@@ -104,7 +123,14 @@ func nativeStructToObject(val any) Object {
 
 		fieldVal := reflect.ValueOf(val).Field(i).Interface()
 
-		obj.Pairs[field.Name] = NativeToObject(fieldVal)
+		pair := NativeToObject(fieldVal)
+
+		// an unsupported field makes the whole struct unsupported
+		if pair == nil {
+			return nil
+		}
+
+		obj.Pairs[field.Name] = pair
 	}
 
 	return obj
@@ -114,7 +140,14 @@ func nativeSliceToArrayObject(slice []any) *Array {
 	arr := &Array{}
 
 	for _, val := range slice {
-		arr.Elements = append(arr.Elements, NativeToObject(val))
+		elem := NativeToObject(val)
+
+		// an unsupported element makes the whole slice unsupported
+		if elem == nil {
+			return nil
+		}
+
+		arr.Elements = append(arr.Elements, elem)
 	}
 
 	return arr
